@@ -68,13 +68,13 @@ def plan(quick):
         p.append(("num-fresh-full1", GEOMS_Q, NUM, "fresh", "FULL1", {}))
         p.append(("all-fresh-full1", GEOMS_Q, ALL, "fresh", "FULL1", {}))
         p.append(("rev-cold-lite2", ["P3", "Cfirstun"], REV, "cold", "LITE2", {}))
-        p.append(("noval-fresh-rem2", GEOMS_CORE, NOVAL, "fresh", "REM2", {}))
+        p.append(("noval-fresh-rem2", ["P3", "Cfirstun", "Cstar"], NOVAL, "fresh", "REM2", {}))
         for s in SINGLES:
             p.append(("single-" + s[0], GEOMS_CORE, s, "fresh", "LITE1", {}))
-        p.append(("num-fresh-full+tiny", GEOMS_6, NUM, "fresh", "FULL+TINY", {}))
-        p.append(("num-cold-rem2", GEOMS_Q, NUM, "cold", "REM2", {}))
-        p.append(("num-warm-rem2", ["Cfirstun", "S2first"], NUM, "warm", "REM2", {}))
-        p.append(("num-disk-clear-rem2", ["Cfirstun", "S2bow"], NUM, "fresh", "REM2", {"disk": True, "clear": True}))
+        p.append(("num-fresh-full+tiny", ["P3", "Cchain", "Cfirstun", "Cstar", "S2first"], NUM, "fresh", "FULL+TINY", {}))
+        p.append(("num-cold-rem2", GEOMS_8, NUM, "cold", "REM2", {}))
+        p.append(("num-warm-rem2", ["Cfirstun"], NUM, "warm", "REM2", {}))
+        p.append(("num-disk-clear-rem2", ["P3", "Cfirstun"], NUM, "fresh", "REM2", {"disk": True, "clear": True}))
     else:
         p.append(("num-fresh-full2", GEOMS_ALL, NUM, "fresh", "FULL2", {}))
         p.append(("all-fresh-full+lite", GEOMS_8, ALL, "fresh", "FULL+LITE", {}))
